@@ -1,16 +1,101 @@
 /-
-  spmodel — extension slot D of the line protocol (ops of one model extension;
-  chained from Driver/Ext.lean).
+  spmodel — extension slot D of the line protocol: the bufio machine
+  (Model/Bufio.lean), `ClassifyStream` on it, and the dispatcher
+  (Model/Dispatch.lean).
+
+  bf.trace <size> <ops> <script>      ops: `p<n>` Peek(n) / `r<cap>` Read(cap); per call `<hex>:<cond>`
+  bf.classify <size> <cap> <script>   ClassifyStream on NewReaderSize(script, size), then drain with Read(cap)
+  bf.dispatch <frag> <secrets> <ls> <lp> <ie> <lsig> <resolver> <bytes>
+                                      ClassifyEncryptedStreamAndMakeDecoder on a reader delivering <bytes> (the
+                                      implementation reads them in fragmentation <frag>; the model does not depend on it)
+  bf.dispatchs <cap> <secrets> <ls> <lp> <ie> <lsig> <resolver> <script>   the same on the bufio machine over a script
+  script entries as in Driver/Streams: `<hex>` data, `<hex>!` data + I/O error, `<hex>$` data + EOF
 -/
 import Driver.Util
+import Driver.Streams
+import Saltpack.Model.Bufio
+import Saltpack.Model.Dispatch
 
 open Saltpack
 
 namespace DriverExtD
-open Driver
+open Driver Driver3 Stream Bufio
+
+def showBErr : Option BErr → String
+  | none => "nil"
+  | some (.src e) => showRErr (some e)
+  | some .bufferFull => "bufferfull"
+  | some .noProgress => "noprogress"
+
+def traceB : List String → BState → List String → List String
+  | [], _, tr => tr.reverse
+  | op :: ops, s, tr =>
+    match (op.drop 1).toString.toNat? with
+    | none => ["bad"]
+    | some n =>
+      if op.startsWith "p" then
+        let (d, e, s1) := peek n s
+        traceB ops s1 (s!"{toHex d}:{showBErr e}" :: tr)
+      else if op.startsWith "r" then
+        let (d, e, s1) := read n s
+        traceB ops s1 (s!"{toHex d}:{showBErr e}" :: tr)
+      else ["bad"]
+
+def showMV : MVerdict (Bool × Bytes × Int × Version) → String
+  | .v (.ok (arm, br, t, v)) => s!"ok armored={arm} {toHex br} {t} {showVer v}"
+  | .v .short => "short"
+  | .v .eof => "eof"
+  | .v .notSaltpack => "not"
+  | .v (.unmodelled w) => s!"unmodelled {w.replace " " "_"}"
+  | .fail e => s!"err:{showBErr (some e)}"
+
+def scriptLen (src : Source) : Nat := (src.map (fun p => p.1.length + 2)).sum
+
+def showResult (r : Dispatch.Result) : String :=
+  let cls := s!"armored={r.armored} type={r.msgType} ver={showVer r.version}"
+  match r.out with
+  | .fail e => s!"fail {showErr e}"
+  | .unmodelled w => s!"unmodelled {w.replace " " "_"}"
+  | .armorFail _ => s!"armorfail {cls}"
+  | .enc d =>
+    let mki := match d.err, d.mki with
+      | none, some m => showMKI m
+      | _, _ => "-"
+    s!"enc {cls} res {showOptErr d.err} rel={toHex d.released} calls={showCalls d.calls} {mki}"
+  | .sc d =>
+    let snd := match d.err with
+      | none => (match d.sender with | some s => toHex s | none => "anon")
+      | some _ => "-"
+    s!"sc {cls} res {showOptErr d.err} rel={toHex d.released} calls={showCalls d.calls} sender={snd}"
 
 def handle (toks : List String) : Option String :=
   match toks with
+  | ["bf.dispatch", _frag, secrets, ls, lp, ie, lsig, resolver, msg] =>
+    match hexList secrets, mkResolver resolver, ofHex msg with
+    | some secrets, some res, some msg =>
+      match mkKeyring secrets ls lp ie lsig with
+      | none => none
+      | some kr => some (showResult (Dispatch.dispatch RealPrims kr res msg))
+    | _, _, _ => none
+  | ["bf.dispatchs", cap, secrets, ls, lp, ie, lsig, resolver, script] =>
+    match cap.toNat?, hexList secrets, mkResolver resolver, parseScript script with
+    | some cap, some secrets, some res, some src =>
+      match mkKeyring secrets ls lp ie lsig with
+      | none => none
+      | some kr => some (showResult (Dispatch.dispatchM RealPrims kr res cap (scriptLen src + 8) src))
+    | _, _, _, _ => none
+  | ["bf.trace", size, ops, script] =>
+    match size.toNat?, parseScript script with
+    | some size, some src =>
+      some s!"ok {",".intercalate (traceB (ops.splitOn ",") (newReaderSize src size) [])}"
+    | _, _ => none
+  | ["bf.classify", size, cap, script] =>
+    match size.toNat?, cap.toNat?, parseScript script with
+    | some size, some cap, some src =>
+      let (v, s1) := classifyStreamM (newReaderSize src size)
+      let (rest, e, _) := drain cap (scriptLen src + s1.buf.length + 8) s1 []
+      some s!"{showMV v} rest={toHex rest} end={showBErr e}"
+    | _, _, _ => none
   | _ => none
 
 end DriverExtD
